@@ -143,9 +143,13 @@ def main(argv=None):
     with mp.Pool(min(args.jobs, len(jobs))) as pool:
         outs = pool.map(_worker, jobs, chunksize=1)
     extra = {}
+    extra_viol, extra_err = [], []
     if hasattr(reg, 'EXTRA_CHECKS') and pid in reg.EXTRA_CHECKS:
         for fn in reg.EXTRA_CHECKS[pid]:
-            extra.update(fn(args.tier, seed))
+            r = fn(args.tier, seed)
+            extra.update(r.get('coverage', {}))
+            extra_viol.extend(r.get('violations', []))
+            extra_err.extend(r.get('errors', []))
     known_path = os.path.join(VERIF, 'known_findings.json')
     known = json.load(open(known_path)) if os.path.exists(known_path) else []
     known = known.get('findings', []) if isinstance(known, dict) else known
@@ -177,8 +181,18 @@ def main(argv=None):
                 else:
                     r['verdict'] = 'violation'
                     violations.append(r)
+    errors.extend(extra_err)
+    for v in extra_viol:
+        rr = {'name': v['name'], 'path': 'bounded', 'status': 'failed', 'backend': 'bounded-enumeration', 'seconds': 0,
+              'detail': v['detail'], 'replay_input': dict(v['input'], harness='df_enum'), 'clause': {'kind': 'bounded'},
+              'replay': {'ran': True, 'clause_holds': False, 'observed': v['input']}, 'props': [pid], 'bounded': True}
+        k = match_known(known, pid, rr)
+        if k is not None:
+            known_hit.append((k, rr))
+        else:
+            violations.append(rr)
     n_known = len(known_hit)
-    n_ob = len(all_res) - n_known          # obligations claimed to hold (known findings are reported, not claimed)
+    n_ob = len(all_res) - len([1 for k, r in known_hit if not r.get('bounded')])   # obligations claimed to hold
     n_dis = sum(1 for r in all_res if r['status'] == 'proved')
     lines = []
     # group violations by obligation name (one VIOLATION line per obligation, first path's replay)
